@@ -221,6 +221,10 @@ pub struct MarketCase {
     /// `Market::get_order_book_mut` (order operations, trading toggle and counter reset of that asset only)
     #[serde(default)]
     pub direct_ops: bool,
+    /// bit (k mod 64) set: after operation k no market-data getter of the market or of its books is called
+    /// (order / trade lists and clocks only; views taken as recomputed from the order lists)
+    #[serde(default)]
+    pub quiet: u64,
 }
 
 #[derive(Clone, Copy, Debug, Default)]
@@ -237,6 +241,7 @@ pub struct MarketOracles {
 
 #[derive(Clone, Debug, Default)]
 pub struct MarketFeatures {
+    pub quiet_ops: u64,
     pub direct_ops: u64,
     pub ops_executed: u64,
     pub ops_skipped: u64,
@@ -281,6 +286,17 @@ fn resolve(orders: &[OrderRec], r: Ref) -> Option<usize> {
 
 fn market_obs(m: &dyn DynMarket) -> Vec<Obs> {
     (0..m.assets()).map(|a| capture(m.book(a))).collect()
+}
+
+fn market_obs_quiet(m: &dyn DynMarket, ticks: &[u32], levels: usize) -> Vec<Obs> {
+    (0..m.assets())
+        .map(|a| {
+            let b = m.book(a);
+            let orders = b.orders();
+            let views = crate::obs::recompute_views(&orders, ticks[a], levels);
+            Obs { time: b.get_time(), trade_vol: b.get_trade_vol(), orders, trades: b.trades(), views }
+        })
+        .collect()
 }
 
 /// all-asset queries vs per-book values in asset order
@@ -342,6 +358,7 @@ fn run_inner(case: &MarketCase, orc: MarketOracles, prop: &str, feat: &mut Marke
     let fail = |sig: &str, step: usize, op: &(u8, Op), msg: String| Failure::new(prop, sig, format!("step {} asset {} op {:?}: {}", step, op.0, op.1, msg));
 
     let mut pre = market_obs(market.as_ref());
+    let n_ops = case.ops.len();
     for (step, aop) in case.ops.iter().enumerate() {
         let direct = case.direct_ops && aop.0 & 0x80 != 0;
         let a = ((if case.direct_ops { aop.0 & 0x7f } else { aop.0 }) as usize) % n;
@@ -623,11 +640,13 @@ fn run_inner(case: &MarketCase, orc: MarketOracles, prop: &str, feat: &mut Marke
             }
         }
         feat.ops_executed += 1;
-        let post = market_obs(market.as_ref());
+        let quiet = step + 1 < n_ops && (case.quiet >> (step % 64)) & 1 == 1;
+        let obs = |m: &dyn DynMarket| if quiet { market_obs_quiet(m, &case.ticks, case.levels) } else { market_obs(m) };
+        let post = obs(market.as_ref());
 
         // --- oracles
         if let Some(t) = twin.as_ref() {
-            let o = market_obs(t.as_ref());
+            let o = obs(t.as_ref());
             for a2 in 0..n {
                 if let Some(d) = diff_obs(&post[a2], &o[a2]) {
                     return Err(fail("C07 reloaded market diverges", step, aop, format!("asset {}: reloaded vs original: {}", a2, d)));
@@ -642,7 +661,9 @@ fn run_inner(case: &MarketCase, orc: MarketOracles, prop: &str, feat: &mut Marke
                     return Err(fail(sig, step, aop, format!("asset {}: market vs stand-alone: {}", a2, d)));
                 }
             }
-            if let Some(d) = check_all_asset_queries(market.as_ref(), &post) {
+            if quiet {
+                feat.quiet_ops += 1;
+            } else if let Some(d) = check_all_asset_queries(market.as_ref(), &post) {
                 return Err(fail("C14 all-asset query does not return per-asset values in asset order", step, aop, d));
             }
         }
